@@ -1815,6 +1815,13 @@ def _maybe_add_quantization_annotation(
     graph_proto: onnx.GraphProto, value: _protocols.ValueProtocol
 ) -> None:
     if quantization_annotation := value.meta.get(_QUANT_PARAMETER_TENSOR_NAMES_FIELD):
+        if any(
+            annotation.tensor_name == value.name
+            for annotation in graph_proto.quantization_annotation
+        ):
+            # Already written: a value can be visited more than once (e.g. as a graph
+            # input and as a graph output)
+            return
         _serialize_tensor_annotation_into(
             graph_proto.quantization_annotation.add(), value.name, quantization_annotation
         )
